@@ -278,6 +278,7 @@ func main() {
 	if sel == nil || (sel.Part == "open" && sel.Index >= 900000) { // the sequential current-directory parts (replayed as a whole)
 		relEvals = runRelSpecial(col)
 		relEvals += runRelURL(col)
+		relEvals += runSameFile(col)
 		var n int
 		n, rootedSkipped = runRooted(col)
 		relEvals += n
@@ -349,7 +350,8 @@ func main() {
 	run.Assume = []string{
 		"destination alphabet: custom sink (vfok), failing custom sink (vffail), file in a fresh directory, file under a missing directory, stdout, unknown scheme, unparsable URL; thorough adds mixed-case custom scheme, file:// URL, relative file path, stderr; every position of a list names a distinct destination",
 		"file URLs are assembled from the listed components; empty port/query/fragment ('file://h:/p', '?', '#'), upper-case 'LOCALHOST' and scheme-less ABSOLUTE strings containing '?', '#', '%' are left out (the source documents that absolute paths are opened as plain paths; the documentation is silent)",
-		"scheme-less RELATIVE destinations are URLs without a scheme (Open's documentation) and so file URLs: escapes are decoded, a query or fragment makes them invalid, an undecodable escape is an error; 74 such strings are run in the current directory",
+		"scheme-less RELATIVE destinations are URLs without a scheme (Open's documentation) and so file URLs: escapes are decoded, a query or fragment makes them invalid, an undecodable escape is an error; 80 such strings (incl. opaque file URLs such as file:stdout, whose path is empty) are run in the current directory",
+		"one file opened by two Open calls (as a plain path and as a URL): everything written through either writer is in the file afterwards, in the order written",
 		"file URLs and plain paths whose absolute path cannot be opened (first directory missing at the root: drive-letter look-alikes /c:/..., an escaped colon, ordinary names) while a look-alike tree exists under the current directory: the call must fail naming the absolute path and leave the look-alike tree empty",
 		"scheme names: every string of length <= 3 over {a,Z,1,+,-,.,_,e-acute} plus the empty string; encoder names {\"\", new, existing, json, console} in every sequence of bounded length; nil factories / constructors and encoder-name letter case are left out (documentation silent)",
 		"std-log: all 256 zapcore.Level values; prior flags and prefixes from the listed sets; termination behaviour of Panic/Fatal levels is C06's subject and not judged here",
